@@ -1,69 +1,7 @@
-/-! Line-protocol driver used for the C16 fidelity run (84 901 pointers): the model of `JsonPointer_proof.lean` plus a reader for the emitter of `explore_jsonpointer_lineprotocol.go.txt`. -/
+import Ogen.JsonPointer_proof
+/-! Line-protocol driver for C16: a reader for the harness' tree notation on top of the *proved*
+    model (`Ptr.resolve` / `Ptr.find` of `JsonPointer_proof.lean`). -/
 namespace Ptr
-abbrev Bytes := List UInt8
-
-inductive Node where
-  | scalar (id : Nat)
-  | map (members : List (Bytes × Node))
-  | seq (items : List Node)
-deriving Inhabited
-
-/-! ### the implementation, as a model -/
-def splitAux : Bytes → Bytes → List Bytes
-  | [], cur => [cur.reverse]
-  | c :: cs, cur => if c = 0x2f then cur.reverse :: splitAux cs [] else splitAux cs (c :: cur)
-def split (s : Bytes) : List Bytes := splitAux s []
-
-/-- D7: every '~' must be followed by '0' or '1' (then both are skipped) -/
-def escapesOk : Bytes → Bool
-  | [] => true
-  | c :: rest =>
-    if c = 0x7e then
-      match rest with
-      | d :: rest' => (d = 0x30 || d = 0x31) && escapesOk rest'
-      | [] => false
-    else escapesOk rest
-
-/-- strings.NewReplacer("~1", "/", "~0", "~"): one left-to-right pass -/
-def unescape : Bytes → Bytes
-  | [] => []
-  | c :: rest =>
-    if c = 0x7e then
-      match rest with
-      | d :: rest' => if d = 0x31 then 0x2f :: unescape rest' else if d = 0x30 then 0x7e :: unescape rest' else c :: unescape (d :: rest')
-      | [] => [c]
-    else c :: unescape rest
-
-def isDigit (c : UInt8) : Bool := 0x30 ≤ c && c ≤ 0x39
-def digitsVal (ds : Bytes) : Nat := ds.foldl (fun a d => a * 10 + (d.toNat - 48)) 0
-
-/-- strconv.ParseUint(part, 10, 64) behind the D7 leading-zero check -/
-def parseIndex (part : Bytes) : Option Nat :=
-  if part.isEmpty then none
-  else if part.length > 1 && part.head? = some 0x30 then none
-  else if !part.all isDigit then none
-  else if digitsVal part < 2 ^ 64 then some (digitsVal part) else none
-
-def findKey : List (Bytes × Node) → Bytes → Option Node
-  | [], _ => none
-  | (k, v) :: rest, key => if k = key then some v else findKey rest key
-
-def step (n : Node) (rawPart : Bytes) : Option Node :=
-  if !escapesOk rawPart then none else
-  match n with
-  | .map ms => findKey ms (unescape rawPart)
-  | .seq items => (parseIndex (unescape rawPart)).bind (fun i => items[i]?)
-  | .scalar _ => none
-
-def walk : List Bytes → Node → Option Node
-  | [], n => some n
-  | t :: ts, n => (step n t).bind (walk ts)
-
-def find (ptr : Bytes) (n : Node) : Option Node :=
-  match ptr with
-  | [] => some n
-  | c :: rest => if c = 0x2f then walk (split rest) n else none
-
 
 /-! driver: line = tree tokens | pointer hex.  tree: "s<id>" | "m<k>" then k×(key hex, tree) | "q<k>" then k trees -/
 def hexVal (c : Char) : UInt8 := if c.isDigit then (c.toNat - 48).toUInt8 else (c.toNat - 87).toUInt8
@@ -96,17 +34,24 @@ partial def readTree (toks : List String) : Node × List String :=
       let (xs, r) := goSeq k rest []
       (.seq xs, r)
 
-def describe : Node → String
+def toHexD (bs : Bytes) : String :=
+  let hd (n : UInt8) : Char := if n < 10 then Char.ofNat (48 + n.toNat) else Char.ofNat (87 + n.toNat)
+  String.ofList (bs.flatMap fun b => [hd (b / 16), hd (b % 16)])
+
+/-- full dump of the designated subtree: scalars carry unique ids, so the dump identifies the
+    node (up to empty containers) -/
+partial def describe : Node → String
   | .scalar id => s!"s{id}"
-  | .map ms => s!"m{ms.length}"
-  | .seq xs => s!"q{xs.length}"
+  | .map ms => s!"m{ms.length}(" ++ " ".intercalate (ms.map fun (k, v) => "k" ++ toHexD k ++ " " ++ describe v) ++ ")"
+  | .seq xs => s!"q{xs.length}(" ++ " ".intercalate (xs.map describe) ++ ")"
 
 def runLine (line : String) : String :=
   match line.splitOn "|" with
   | [tree, ptr] =>
     let (n, _) := readTree ((tree.splitOn " ").filter (· ≠ ""))
-    match find (parseHex ptr.trimAscii.toString.toList) n with
-    | some r => "ok " ++ describe r
-    | none => "err"
+    match resolve (parseHex ptr.trimAscii.toString.toList) n with
+    | .ok r => "ok " ++ describe r
+    | .err => "err"
+    | .unmodelled => "unmodelled"
   | _ => "bad"
 end Ptr
